@@ -75,10 +75,19 @@ package spec
 // Functions whose no-panic obligations discharge without any contract beyond a non-nil pointer receiver
 // (generated from `gvc sweep`; `inline`: callers keep seeing the body).
 
+// base64 text is decoded with the unpadded URL-safe alphabet exactly when it uses one of that alphabet's two own
+// characters, otherwise with the unpadded standard alphabet; it is always written with the standard one
 //@ func (*Base64Bytes).Decode
-//@   property C18:safety
+//@   property C17, C18:safety
 //@   inline
 //@   requires b64 != nil
+//@   calls DecodeString alphabet-chosen-by-the-text: s == str && (extcall("strings.ContainsAny", str, "-_") ? enc == base64.RawURLEncoding : enc == base64.RawStdEncoding)
+//@   ensures decoded-or-refused: result == ret(DecodeString, 1) && (result == nil ==> str(*b64) == str(ret(DecodeString, 0)))
+
+//@ func (Base64Bytes).Encode
+//@   property C17, C18:safety
+//@   inline
+//@   calls EncodeToString standard-unpadded-alphabet: enc == base64.RawStdEncoding && str(src) == str(b64)
 
 //@ func (*Base64Bytes).UnmarshalJSON
 //@   property C18:safety
